@@ -66,6 +66,11 @@ def _check_main(run, P):
              "(shared with C14.latch / C14.progress / C14.fixpoint)", minimum=6)
     run.rule("C09.operands", "the kind of an arithmetic node is the join of the kinds "
              "of all its operands", minimum=4)
+    run.rule("C09.resolve", "resolve_args binds like a Python call and returns one value per "
+             "declared argument, in declaration order: positional before keyword before "
+             "default, exactly one value per name on every path, unknown keywords rejected",
+             minimum=5)
+    run.do(resolve_rule, run, P, "C09.resolve")
     run.rule("C09.const", "a constant is complex by its *type*: the test is an "
              "isinstance() over the built-in and numpy's complex scalar types", minimum=1)
     run.do(_const, run, P)
@@ -522,6 +527,150 @@ def _scalar_results(run, P, c, grk, fn, rets, prets, i, n_pos, ident):
                why="user-type values may be represented by arrays of any rank: a contraction "
                    "of the last axis only (np.inner, np.dot) returns a matrix where the "
                    "kind says scalar")
+
+
+def resolve_rule(run, P, rule):
+    """dagrt.utils.resolve_args - the helper through which every built-in's
+    kind function, and the call emitters, bind their arguments."""
+    from ..engine.cfg import CFG, forward, own_fragments, walk_fragment
+    from .util import path_conditions
+    f = P.func("dagrt.utils.resolve_args")
+    names_p, defaults_p, given_p = f.params[0], f.params[1], f.params[2]
+    aliases = {given_p}
+    for s_ in ast.walk(f.node):
+        if isinstance(s_, ast.Assign) and isinstance(s_.value, ast.Call) \
+                and dotted(s_.value.func) in (f"{given_p}.copy", "dict") \
+                and (dotted(s_.value.func) != "dict" or (s_.value.args and dotted(s_.value.args[0]) == given_p)):
+            aliases |= {t.id for t in s_.targets if isinstance(t, ast.Name)}
+    rets = [r for r in ast.walk(f.node) if isinstance(r, ast.Return) and r.value is not None]
+    if not rets:
+        raise AnalysisError("resolve_args: no return")
+
+    def over_names(it):
+        if isinstance(it, ast.Call) and dotted(it.func) == "enumerate" and len(it.args) == 1 \
+                and not it.keywords:
+            it = it.args[0]
+        return dotted(it) == names_p
+
+    for r in rets:
+        v = r.value
+        if isinstance(v, ast.Call) and dotted(v.func) in ("tuple", "list") and len(v.args) == 1:
+            v = v.args[0]
+        ok, how = False, norm(r.value, 50)
+        if isinstance(v, (ast.GeneratorExp, ast.ListComp)):
+            ok = len(v.generators) == 1 and over_names(v.generators[0].iter) and not v.generators[0].ifs
+            how = f"one entry per element of {names_p}"
+        elif isinstance(v, ast.Name):
+            apps = [x for x in ast.walk(f.node) if isinstance(x, ast.Call) and isinstance(x.func, ast.Attribute)
+                    and dotted(x.func.value) == v.id and x.func.attr in ("append", "insert", "extend")]
+            loops = [lp for lp in ast.walk(f.node) if isinstance(lp, ast.For) and over_names(lp.iter)]
+            inside = [x for x in apps if any(any(x is y for y in ast.walk(b)) for lp in loops[:1]
+                                             for b in lp.body)]
+            ok = bool(apps) and len(inside) == len(apps) and all(x.func.attr == "append" for x in apps) \
+                and len(loops) >= 1
+            how = f"{v.id}, appended to in the loop over {names_p} only"
+            if ok:
+                # exactly one append per iteration on every path that goes on
+                lp = loops[0]
+                g = CFG(f.node)
+                head = g.node_of(lp)
+
+                def n_apps(n):
+                    return sum(1 for fr in own_fragments(n) for x in walk_fragment(fr)
+                               if any(x is a for a in apps)) if n.kind == "stmt" else 0
+
+                def transfer(n, st):
+                    k = n_apps(n)
+                    return frozenset(min(c + k, 2) for c in st)
+
+                def edge(n, lab, st):
+                    if n is head and lab == "T":
+                        return frozenset({0})
+                    if lab in ("exc", "raise", "reraise"):
+                        return None
+                    return st
+
+                ins = forward(g, frozenset({0}), transfer, edge, meet=lambda a, b: a | b, top=None)
+                back = set()
+                for a, lab in g.pred[head]:
+                    if ins.get(a) is not None and any(
+                            a.ast is y or (a.kind == "test" and a.label is y)
+                            for b in lp.body for y in ast.walk(b)):
+                        back |= transfer(a, ins[a])
+                ok = back == {1}
+                how += f"; values added per iteration on the paths that go on: {sorted(back)}"
+        run.ob(rule, f, r, ok,
+               construct=f"resolve_args returns the values in the order of {names_p} ({how})",
+               why="callers unpack the result by position (a_kind, b_kind = ...): values in "
+                   "the caller's keyword order, or one too many / too few, give every "
+                   "argument after that point another argument's kind")
+    # sources and priority
+    srcs = {"positional": None, "keyword": None, "default": None}
+    for lp in [x for x in ast.walk(f.node) if isinstance(x, ast.For) and over_names(x.iter)]:
+        t = lp.target
+        if isinstance(t, ast.Tuple) and len(t.elts) == 2:
+            idx, nm = t.elts[0].id, t.elts[1].id
+        elif isinstance(t, ast.Name):
+            idx, nm = None, t.id
+        else:
+            continue
+        for x in ast.walk(lp):
+            if not isinstance(x, (ast.Subscript, ast.Call)):
+                continue
+            if isinstance(x, ast.Subscript) and isinstance(x.ctx, ast.Load):
+                cont, key = dotted(x.value), dotted(x.slice)
+            elif isinstance(x, ast.Call) and isinstance(x.func, ast.Attribute) \
+                    and x.func.attr in ("pop", "get") and x.args:
+                cont, key = dotted(x.func.value), dotted(x.args[0])
+            else:
+                continue
+            stmt = _stmt_of(f.node, x)
+            conds = path_conditions(f.node, stmt) if stmt is not None else set()
+            if cont in aliases and key == idx and idx is not None:
+                srcs["positional"] = (x, conds, idx, nm)
+            elif cont in aliases and key == nm:
+                srcs["keyword"] = (x, conds, idx, nm)
+            elif cont == defaults_p and key == nm:
+                srcs["default"] = (x, conds, idx, nm)
+    for label, hit in srcs.items():
+        if hit is None:
+            run.ob(rule, f, f.node, False,
+                   construct=f"the {label} value of an argument is looked up in the loop over {names_p}",
+                   why="an argument given that way is not bound")
+            continue
+        x, conds, idx, nm = hit
+        cd = {t: v for t, v in conds}
+        in_pos = next((v for t, v in conds if any(t == f"{idx} in {a}" for a in aliases)), None)
+        in_kw = next((v for t, v in conds if any(t == f"{nm} in {a}" for a in aliases)), None)
+        if label == "positional":
+            ok = in_pos is True
+        elif label == "keyword":
+            ok = in_pos is False and in_kw is True
+        else:
+            ok = in_pos is False and in_kw is False
+        run.ob(rule, f, x, ok,
+               construct=f"{label} value {norm(x, 40)} is used when: given by position "
+                         f"{in_pos}, given by keyword {in_kw}",
+               why="Python binds a positional argument first, then a keyword, then the "
+                   "default: another priority gives the kind function other arguments "
+                   "than the call the interpreter makes")
+    # unknown keywords
+    left = [r_ for r_ in ast.walk(f.node) if isinstance(r_, ast.Raise)
+            and any(t_ in aliases and v_ for t_, v_ in path_conditions(f.node, r_))]
+    run.ob(rule, f, left[0] if left else f.node, bool(left),
+           construct="arguments left over after binding raise TypeError",
+           why="the interpreter's Python call rejects an unknown keyword; inference that "
+               "ignores it infers kinds for a call that cannot be made")
+
+
+def _stmt_of(fn, node):
+    best = None
+    for s_ in ast.walk(fn):
+        if isinstance(s_, ast.stmt) and not isinstance(s_, (ast.FunctionDef, ast.For, ast.While, ast.If,
+                                                             ast.With, ast.Try)) \
+                and any(node is y for y in ast.walk(s_)):
+            best = s_
+    return best
 
 
 def _arg_dependent(run, P, c, grk, fn, rets, prets, i, n_pos, ident):
